@@ -1,6 +1,286 @@
-import LcdbModel.Model.Lsm
-import LcdbModel.Model.DbIter
+/-
+  C01 — reads return the latest write.
+
+  Central refinement theorem: under the invariant `Inv`, the implementation-shaped point lookup
+  `get` (memtable, immutable memtable, the level-0 files whose user-key range contains the key
+  newest first, then one `find_file` probe per deeper level) answers exactly what a plain sorted
+  map holding every entry of the state answers (`view`).
+
+  All proofs are in core Lean (no Mathlib, kernel-checked `decide` only); the supporting lemmas live in
+  `LcdbModel.Lemmas.CmpBasic` (the comparators are lawful total orders) and
+  `LcdbModel.Lemmas.Lsm`.
+
+  Remarks on the statements
+  * Sequence-number ties.  A strictly sorted run may hold a value and a deletion of one user key
+    with the *same* sequence number (packed trailers `s*256+1 > s*256+0`).  `newestOf` prefers the
+    earlier element on ties and so does the seek, and entries of one run stay in run order inside
+    `allEntries`, so `get_eq_view` holds without any "distinct sequence numbers" hypothesis; it
+    even holds at the level of entries (`getEntry_eq_newestVisible`).
+  * `levelGet_eq_lookup_concat` needs only `FileOk`; `LevelSorted` is what makes the concatenation
+    itself a sorted run (`Lsm.levelRun_sorted`), which `get_eq_view` uses.
+-/
+import LcdbModel.Lemmas.CmpBasic
+import LcdbModel.Lemmas.Lsm
 namespace Lcdb.C01
-open Lcdb
+open Lcdb.CmpBasic
+
+/-! ### 1. the internal-key order is a strict total order, for every comparator -/
+
+theorem ikLt_irrefl (c : Cmp) (k : Bytes) (p : Nat) : ikLt c k p k p = false :=
+  Lsm.ikLt_irrefl c k p
+
+theorem ikLt_trans (c : Cmp) {ak : Bytes} {ap : Nat} {bk : Bytes} {bp : Nat} {dk : Bytes} {dp : Nat}
+    (h1 : ikLt c ak ap bk bp = true) (h2 : ikLt c bk bp dk dp = true) : ikLt c ak ap dk dp = true :=
+  Lsm.ikLt_trans c h1 h2
+
+theorem ikLt_asymm (c : Cmp) {ak : Bytes} {ap : Nat} {bk : Bytes} {bp : Nat}
+    (h : ikLt c ak ap bk bp = true) : ikLt c bk bp ak ap = false :=
+  Lsm.ikLt_asymm c h
+
+theorem ikLt_trichotomy (c : Cmp) (ak : Bytes) (ap : Nat) (bk : Bytes) (bp : Nat) :
+    ikLt c ak ap bk bp = true ∨ (ak = bk ∧ ap = bp) ∨ ikLt c bk bp ak ap = true :=
+  Lsm.ikLt_trichotomy c ak ap bk bp
+
+theorem entryLt_irrefl (c : Cmp) (a : Entry) : entryLt c a a = false := Lsm.entryLt_irrefl c a
+
+theorem entryLt_trans (c : Cmp) {a b d : Entry} (h1 : entryLt c a b = true)
+    (h2 : entryLt c b d = true) : entryLt c a d = true := Lsm.entryLt_trans c h1 h2
+
+theorem entryLt_asymm (c : Cmp) {a b : Entry} (h : entryLt c a b = true) : entryLt c b a = false :=
+  Lsm.entryLt_asymm c h
+
+/-- trichotomy up to the key the order looks at: (user key, packed trailer) -/
+theorem entryLt_trichotomy (c : Cmp) (a b : Entry) :
+    entryLt c a b = true ∨ (a.ukey = b.ukey ∧ a.packed = b.packed) ∨ entryLt c b a = true :=
+  Lsm.entryLt_trichotomy c a b
+
+/-- with legal kinds, the middle case of the trichotomy pins down user key, sequence and kind -/
+theorem entryLt_trichotomy' (c : Cmp) (a b : Entry) (ha : a.kind ≤ 1) (hb : b.kind ≤ 1) :
+    entryLt c a b = true ∨ (a.ukey = b.ukey ∧ a.seq = b.seq ∧ a.kind = b.kind) ∨
+      entryLt c b a = true := by
+  rcases Lsm.entryLt_trichotomy c a b with h | ⟨h1, h2⟩ | h
+  · exact .inl h
+  · exact .inr (.inl ⟨h1, Lsm.packed_inj (by omega) (by omega) h2⟩)
+  · exact .inr (.inr h)
+
+/-! ### 2. one sorted run -/
+
+/-- in a strictly sorted run, seeking to `(k, s)` and accepting only the same user key finds
+    exactly the newest entry of `k` with sequence `≤ s` (on a value/deletion tie in the sequence
+    number both sides return the first of the two) -/
+theorem runGet_eq_newest (c : Cmp) (r : Run) (k : Bytes) (s : Nat) (hs : RunSorted c r)
+    (hk : ∀ e ∈ r, e.kind ≤ 1) : runGet c r k s = newestVisible c r k s :=
+  Lsm.runGet_eq_newest c r k s hs hk
+
+/-! ### 3. one deeper level -/
+
+/-- one `find_file` probe plus the smallest-user-key guard equals a lookup in the concatenation of
+    the level, including a user key whose versions straddle two files -/
+theorem levelGet_eq_lookup_concat (c : Cmp) (files : List FileMeta) (k : Bytes) (s : Nat)
+    (hsorted : LevelSorted c files) (hok : ∀ f ∈ files, FileOk c f) :
+    ((levelFile c files k (seekPacked s)).bind fun f => runGet c f.run k s)
+      = runGet c (files.flatMap (·.run)) k s :=
+  Lsm.levelGet_eq_lookup_concat c files k s hsorted hok
+
+/-- ... and that concatenation is a sorted run -/
+theorem levelRun_sorted (c : Cmp) (files : List FileMeta) (hsorted : LevelSorted c files)
+    (hok : ∀ f ∈ files, FileOk c f) : RunSorted c (files.flatMap (·.run)) :=
+  Lsm.levelRun_sorted c files hsorted hok
+
+/-! ### 4. level 0 -/
+
+/-- searching the candidate files (range filter, newest first) with "first hit wins" equals
+    searching ALL level-0 files newest first: a file whose user-key range does not contain `k` has
+    no entry for `k`, and `mergeSort` is stable so filtering commutes with sorting -/
+theorem l0_search_eq (c : Cmp) (files : List FileMeta) (k : Bytes) (s : Nat)
+    (hok : ∀ f ∈ files, FileOk c f) :
+    (l0Candidates c files k).findSome? (fun f => runGet c f.run k s)
+      = (files.mergeSort (fun a b => decide (a.num ≥ b.num))).findSome?
+          (fun f => runGet c f.run k s) :=
+  Lsm.l0_search_eq c files k s hok
+
+/-! ### 5. first hit along a recency-ordered list of runs -/
+
+theorem firstHit_eq_newest (c : Cmp) (rs : List Run) (k : Bytes) (s : Nat)
+    (hrec : rs.Pairwise (NewerThan c)) (hs : ∀ r ∈ rs, RunSorted c r)
+    (hk : ∀ r ∈ rs, ∀ e ∈ r, e.kind ≤ 1) :
+    rs.findSome? (fun r => runGet c r k s) = newestVisible c rs.flatten k s :=
+  Lsm.firstHit_eq_newest c rs k s hrec hs hk
+
+/-! ### 6. the refinement theorem -/
+
+/-- entry-level form: the implementation's search returns exactly the newest visible entry -/
+theorem getEntry_eq_newestVisible (c : Cmp) (st : DbState) (h : Inv c st) (k : Bytes) (s : Nat) :
+    getEntry c st k s = newestVisible c (allEntries st) k s :=
+  Lsm.getEntry_eq_newestVisible c st h k s
+
+/-- **C01**: under the invariant, the implementation's lookup equals what a plain sorted map of
+    all entries dictates -/
+theorem get_eq_view (c : Cmp) (st : DbState) (h : Inv c st) (k : Bytes) (s : Nat) :
+    get c st k s = view c (allEntries st) k s := by
+  unfold get view
+  rw [getEntry_eq_newestVisible c st h k s]
+
+/-! what `view` means: the visible entry of greatest sequence number -/
+
+theorem newestOf_max {l : List Entry} {m : Entry} (h : newestOf l = some m) :
+    ∀ x ∈ l, x.seq ≤ m.seq := by
+  induction l generalizing m with
+  | nil => intro x hx; cases hx
+  | cons e es ih =>
+    simp only [newestOf] at h
+    cases h' : newestOf es with
+    | none =>
+      have := Lsm.newestOf_eq_none.mp h'
+      subst this
+      rw [h'] at h; simp only [Option.some.injEq] at h; subst h
+      intro x hx; simp at hx; subst hx; exact Nat.le_refl _
+    | some m' =>
+      rw [h'] at h; simp only at h
+      have ih := ih h'
+      intro x hx
+      split at h <;> simp only [Option.some.injEq] at h <;> subst h <;>
+        rcases List.mem_cons.mp hx with rfl | hx
+      · exact Nat.le_refl _
+      · have := ih x hx; omega
+      · omega
+      · exact ih x hx
+
+theorem newestVisible_spec {c : Cmp} {es : List Entry} {k : Bytes} {s : Nat} {m : Entry}
+    (h : newestVisible c es k s = some m) :
+    m ∈ es ∧ m.ukey = k ∧ m.seq ≤ s ∧ ∀ x ∈ es, x.ukey = k → x.seq ≤ s → x.seq ≤ m.seq := by
+  obtain ⟨h1, h2, h3⟩ := Lsm.newestVisible_mem h
+  exact ⟨h1, h2, h3, fun x hx hxk hxs => newestOf_max h x (Lsm.mem_visibleEntries.mpr ⟨hx, hxk, hxs⟩)⟩
+
+theorem newestVisible_eq_none_iff {c : Cmp} {es : List Entry} {k : Bytes} {s : Nat} :
+    newestVisible c es k s = none ↔ ∀ x ∈ es, x.ukey = k → ¬ x.seq ≤ s := by
+  unfold newestVisible
+  rw [Lsm.newestOf_eq_none, List.eq_nil_iff_forall_not_mem]
+  simp only [Lsm.mem_visibleEntries, not_and]
+
+/-- reads return the latest write: if `e` is the write to `k` with the greatest sequence number
+    `≤ s` in the whole state, `get` answers `e` (its value, or NOTFOUND for a deletion) -/
+theorem get_latest_write (c : Cmp) (st : DbState) (h : Inv c st) (k : Bytes) (s : Nat) (e : Entry)
+    (he : e ∈ allEntries st) (hek : e.ukey = k) (hes : e.seq ≤ s)
+    (hmax : ∀ x ∈ allEntries st, x.ukey = k → x.seq ≤ s → x.seq < e.seq ∨ x = e) :
+    get c st k s = if e.kind == 1 then some e.val else none := by
+  rw [get_eq_view c st h k s]
+  unfold view
+  cases hm : newestVisible c (allEntries st) k s with
+  | none => exact absurd hes (newestVisible_eq_none_iff.mp hm e he hek)
+  | some m =>
+    obtain ⟨h1, h2, h3, h4⟩ := newestVisible_spec hm
+    have := h4 e he hek hes
+    rcases hmax m h1 h2 h3 with hlt | rfl
+    · omega
+    · rfl
+
+/-- a key never written (no entry at or below `s`) is NOTFOUND -/
+theorem get_absent (c : Cmp) (st : DbState) (h : Inv c st) (k : Bytes) (s : Nat)
+    (hno : ∀ x ∈ allEntries st, x.ukey = k → ¬ x.seq ≤ s) : get c st k s = none := by
+  rw [get_eq_view c st h k s]
+  unfold view
+  rw [newestVisible_eq_none_iff.mpr hno]
+
+/-! ### 8. the executable check implies the invariant -/
+
+theorem invCheck_sound (c : Cmp) (st : DbState) (h : invCheck c st = none) : Inv c st :=
+  Lsm.invCheck_sound c st h
+
+/-! ### 7. non-vacuity: a concrete state satisfying `Inv` -/
+
+section Example
+
+def ent (k : UInt8) (seq kind : Nat) (v : String) : Entry :=
+  { ukey := [k], seq := seq, kind := kind, val := v }
+
+/-- file metadata computed from a non-empty run -/
+def mkFile (num : Nat) (r : Run) : FileMeta :=
+  let h := r.head?.getD (ent 0 0 0 "")
+  let l := r.getLast?.getD (ent 0 0 0 "")
+  { num := num, size := r.length, sk := h.ukey, sp := h.packed, lk := l.ukey, lp := l.packed, run := r }
+
+/-- level 0, older, user keys a..e (overlaps `f12`) -/
+def f9 := mkFile 9 [ent 97 14 0 "", ent 99 13 1 "c13", ent 101 12 1 "e12"]
+/-- level 0, newer, user keys b..d -/
+def f12 := mkFile 12 [ent 98 16 1 "b16", ent 100 15 1 "d15"]
+/-- level 1: user key `e` straddles `f7` and `f8` -/
+def f7 := mkFile 7 [ent 99 11 1 "c11", ent 101 10 1 "e10"]
+def f8 := mkFile 8 [ent 101 9 1 "e9", ent 102 8 1 "f8"]
+/-- level 3: a value and a deletion of `d` with the same sequence number, and a tombstone for `g` -/
+def f3 := mkFile 3 [ent 100 5 1 "d5", ent 100 5 0 "", ent 103 4 0 ""]
+/-- level 4: the value of `g` shadowed by the tombstone above -/
+def f2 := mkFile 2 [ent 103 2 1 "g2", ent 104 1 1 "h1"]
+
+def exSt : DbState where
+  mem := [ent 97 20 1 "a20", ent 98 19 0 ""]
+  imm := some [ent 97 18 1 "a18", ent 99 17 1 "c17"]
+  levels := [[f9, f12], [f7, f8], [], [f3], [f2], [], []]
+  lastSeq := 20
+  snaps := [13, 18]
+  nextFile := 13
+
+theorem exL0 : [f9, f12].mergeSort (fun a b => decide (a.num ≥ b.num)) = [f12, f9] := by
+  simp [List.mergeSort, f9, f12, mkFile]
+
+theorem exSources : sourceRuns exSt =
+    [exSt.mem, [ent 97 18 1 "a18", ent 99 17 1 "c17"], f12.run, f9.run, f7.run ++ f8.run, [],
+      f3.run, f2.run, [], []] := by
+  show [exSt.mem] ++ _ ++ List.map _ ([f9, f12].mergeSort _) ++ _ = _
+  rw [exL0]; rfl
+
+theorem exInv : Inv .bytewise exSt where
+  nlevels := by decide
+  memSorted := by decide
+  immSorted := by decide
+  filesOk := by decide
+  levelsSorted := Lsm.levelsSorted_of_range (by decide) (by decide)
+  recency := by rw [exSources]; decide
+  seqBound := by decide
+  kinds := by decide
+  numsDistinct := by decide
+  numsBound := by decide
+  snapsBound := by decide
+
+-- the executable check agrees with `exInv` (evaluated by the interpreter: a build-time sanity
+-- check, not a proof; kernel `decide` cannot unfold the well-founded `mergeSort`)
+#guard invCheck .bytewise exSt == none
+
+/-- `get` on the example, computed through `get_eq_view` (`view` has no `mergeSort` in it) -/
+theorem get_eq_view_examples :
+    Inv .bytewise exSt ∧
+    get .bytewise exSt [97] 20 = some "a20" ∧      -- a: memtable wins
+    get .bytewise exSt [97] 19 = some "a18" ∧      -- a at an older snapshot: immutable memtable
+    get .bytewise exSt [97] 15 = none ∧            -- a: deleted in the older level-0 file
+    get .bytewise exSt [98] 20 = none ∧            -- b: deleted in the memtable ...
+    get .bytewise exSt [98] 18 = some "b16" ∧      -- ... but visible at snapshot 18 (level 0)
+    get .bytewise exSt [99] 13 = some "c13" ∧      -- c: level 0 beats level 1
+    get .bytewise exSt [101] 20 = some "e12" ∧     -- e: level 0
+    get .bytewise exSt [101] 11 = some "e10" ∧     -- e straddles two level-1 files: first file
+    get .bytewise exSt [101] 9 = some "e9" ∧       -- ... second file
+    get .bytewise exSt [100] 14 = some "d5" ∧      -- d: value/deletion tie at sequence 5, value first
+    get .bytewise exSt [103] 20 = none ∧           -- g: deeper tombstone shadows a deeper value
+    get .bytewise exSt [103] 3 = some "g2" ∧       -- ... which is visible below the tombstone
+    get .bytewise exSt [104] 20 = some "h1" ∧      -- h: deepest non-empty level
+    get .bytewise exSt [122] 20 = none := by       -- z: never written
+  refine ⟨exInv, ?_, ?_, ?_, ?_, ?_, ?_, ?_, ?_, ?_, ?_, ?_, ?_, ?_, ?_⟩ <;>
+    (rw [get_eq_view _ _ exInv]; decide)
+
+-- the same evaluations run directly on `get` by the interpreter (build-time sanity check)
+#guard get .bytewise exSt [97] 20 == some "a20" && get .bytewise exSt [97] 19 == some "a18" &&
+  get .bytewise exSt [97] 15 == none && get .bytewise exSt [98] 20 == none &&
+  get .bytewise exSt [98] 18 == some "b16" && get .bytewise exSt [99] 13 == some "c13" &&
+  get .bytewise exSt [101] 20 == some "e12" && get .bytewise exSt [101] 11 == some "e10" &&
+  get .bytewise exSt [101] 9 == some "e9" && get .bytewise exSt [100] 14 == some "d5" &&
+  get .bytewise exSt [103] 20 == none && get .bytewise exSt [103] 3 == some "g2" &&
+  get .bytewise exSt [104] 20 == some "h1" && get .bytewise exSt [122] 20 == none
+
+/-- non-vacuity of `get_latest_write` on the example -/
+example : get .bytewise exSt [101] 11 = some "e10" := by
+  have := get_latest_write .bytewise exSt exInv [101] 11 (ent 101 10 1 "e10")
+    (by decide) rfl (by decide) (by decide)
+  exact this
+
+end Example
 
 end Lcdb.C01
